@@ -5,6 +5,14 @@ use std::collections::{HashMap, HashSet};
 use std::rc::Rc;
 use std::sync::Arc;
 
+// Register 255 is never handed out: `next_register` / `num_registers` are u8 counts and
+// could not express "256 registers in use".
+fn fresh_register_pool() -> [bool; 256] {
+    let mut pool = [false; 256];
+    pool[255] = true;
+    pool
+}
+
 impl Compiler {
     pub fn new(name: Option<String>, source: Arc<Source>) -> Self {
         Self {
@@ -22,7 +30,7 @@ impl Compiler {
             next_register: 0,
             has_no_gc: false,
             heap: Heap::new(),
-            register_pool: [false; 256],
+            register_pool: fresh_register_pool(),
             globals: HashMap::new(),
             global_indices: HashMap::new(),
             next_global_index: 0,
@@ -58,7 +66,7 @@ impl Compiler {
             next_register: 0,
             has_no_gc: false,
             heap,
-            register_pool: [false; 256],
+            register_pool: fresh_register_pool(),
             globals,
             global_indices: HashMap::new(),
             next_global_index: 0,
@@ -107,7 +115,7 @@ impl Compiler {
             next_register: 0,
             has_no_gc: false,
             heap,
-            register_pool: [false; 256],
+            register_pool: fresh_register_pool(),
             globals,
             global_indices,
             next_global_index,
@@ -144,7 +152,7 @@ impl Compiler {
             next_register: 0,
             has_no_gc: false,
             heap: Heap::new(),
-            register_pool: [false; 256],
+            register_pool: fresh_register_pool(),
             globals: HashMap::new(),
             global_indices: HashMap::new(),
             next_global_index: 0,
@@ -183,7 +191,7 @@ impl Compiler {
             next_register: 0,
             has_no_gc: false,
             heap: Heap::new(),
-            register_pool: [false; 256],
+            register_pool: fresh_register_pool(),
             globals,
             global_indices: HashMap::new(),
             next_global_index: 0,
